@@ -66,7 +66,7 @@ func ScanRepositoryUsingGraph(
 
 	type ObjectHeader struct {
 		oid        git.OID
-		objectSize counts.Count32
+		objectSize counts.Count64
 	}
 
 	type CommitHeader struct {
@@ -363,7 +363,7 @@ func (g *Graph) HistorySize() HistorySize {
 
 // RegisterBlob records that the specified `oid` is a blob with the
 // specified size.
-func (g *Graph) RegisterBlob(oid git.OID, objectSize counts.Count32) {
+func (g *Graph) RegisterBlob(oid git.OID, objectSize counts.Count64) {
 	size := BlobSize{Size: objectSize}
 	// There are no listeners. Since this is a blob, we know all that
 	// we need to know about it. So skip the record and just fill in
